@@ -9,6 +9,7 @@ import lib  # noqa
 
 TRANSLATORS: dict[str, str] = {
     # Gen file stem -> translator module (translate/<module>.py with generate() -> str)
+    "GenSkeleton": "skeleton",
 }
 
 
